@@ -28,6 +28,11 @@ fn main() {
         rngs_verif_harness::monitors::c06::race_child(args[2].parse().expect("type"), args[3] == "1", args[4].parse().expect("id"));
         return;
     }
+    if args[1] == "--c08-race-child" {
+        std::panic::set_hook(Box::new(|_| {}));
+        rngs_verif_harness::monitors::c08::race_child(args[2].parse().expect("type"), args[3].parse().expect("id"));
+        return;
+    }
     if args[1] == "--dump-c06-oracle" {
         rngs_verif_harness::monitors::c06::dump_oracles(&args[2]);
         return;
